@@ -6,6 +6,7 @@ from ..core import AnalysisError
 from .shared_py import inn
 from ..pyfront import unparse, try_const, norm_key
 from . import shared_gen as G
+from . import shared_py as P
 
 FORMS = {frozenset(): 'plain', frozenset(['size']): 'fixed', frozenset(['bound']): 'dynamic', frozenset(['bound', 'size']): 'limited',
          frozenset(['greedy']): 'greedy', frozenset(['optional']): 'optional'}
@@ -86,55 +87,116 @@ def implicit_sizers(ctx, L):
         i2 = s.find("bound='num_of_' + t[2]")
         L.check(0 <= i1 < i2, 'C17a.implicit-sizer', q, f.site(),
                 'an array without an explicit sizer gets a u32 counter `num_of_<name>` emitted *before* the array and bound to it', s[-300:])
-    isar = ctx.py.mod('prophyc.parsers.isar').func('make_struct_members')
-    s = ws(unparse(isar.node))
-    L.check(inn("type_ = dimension.get('variableSizeFieldType', 'u32')", s), 'C17a.implicit-sizer', 'isar|default-type', isar.site(),
+    isar = ctx.py.mod('prophyc.parsers.isar').func('make_struct_members.collect')
+    calls = [c for c in isar.walk() if isinstance(c, ast.Call) and unparse(c.func) == 'model.StructMember' and len(c.args) >= 2
+             and any(k.arg == 'bound' for k in c.keywords) and any(k.arg == 'size' for k in c.keywords)]
+    ok = len(calls) == 1
+    order_ok = False
+    if ok:
+        # the limited/ext-sized array and, in the same branch before it, the counter it is bound to
+        arr = calls[0]
+        blk = isar.module.parent(isar.module.parent(isar.module.parent(arr)))        # Call -> Yield -> Expr -> block owner
+        stmts = [st for st in ast.walk(blk) if isinstance(st, ast.Expr) and isinstance(st.value, ast.Yield)]
+        mine = [st for st in stmts if st.value.value is arr]
+        sib = None
+        for field in ('body', 'orelse'):
+            b = getattr(blk, field, [])
+            if mine and mine[0] in b:
+                sib = b[:b.index(mine[0])]
+        bound = [k.value for k in arr.keywords if k.arg == 'bound'][0]
+        counters = [st.value.value for st in (sib or []) if isinstance(st, ast.Expr) and isinstance(st.value, ast.Yield)
+                    and isinstance(st.value.value, ast.Call) and unparse(st.value.value.func) == 'model.StructMember']
+        order_ok = len(counters) == 1 and P.sem_text(isar, counters[0].args[0]) == P.sem_text(isar, bound)
+        ok = order_ok and len(counters[0].args) >= 2 and "get('variableSizeFieldType', 'u32')" in ws(P.sem_text(isar, counters[0].args[1]))
+    L.check(ok, 'C17a.implicit-sizer', 'isar|default-type', isar.site(),
             'the implicit isar counter defaults to u32 like the prophy one', '')
-    i1 = s.find('yield model.StructMember(sizer_name, type_, docstring=comment)')
-    i2 = s.find('yield model.StructMember(xml_elem_name, xml_elem_type, bound=sizer_name, size=size_, docstring=comment)')
-    L.check(0 <= i1 < i2, 'C17a.implicit-sizer', 'isar|order', isar.site(), 'the implicit counter is emitted before its array', '')
+    L.check(order_ok, 'C17a.implicit-sizer', 'isar|order', isar.site(), 'the implicit counter is emitted before its array', '')
+
+
+ISAR_MEMBERS = """
+    xml_elem_name = xml_elem.get("name")
+    xml_elem_type = xml_elem.get("type")
+    optional = xml_elem.get("optional")
+    optional = bool(optional) and optional.lower() == "true"
+    dimension = xml_elem.find("dimension")
+    comment = get_docstr(xml_elem)
+
+    def collect():
+        if dimension is None:
+            yield model.StructMember(xml_elem_name, xml_elem_type, optional=optional, docstring=comment)
+        else:
+            size = dimension.get("size", None)
+            size2 = dimension.get("size2", None)
+            if size2:
+                size = "{}*{}".format(size, size2)
+            if optional:
+                yield model.StructMember("has_" + xml_elem_name, "u32", docstring="implicit enabler for optional field")
+            sizer_name = dimension.get("variableSizeFieldName", None)
+            if sizer_name and "@" in sizer_name[0]:
+                yield model.StructMember(xml_elem_name, xml_elem_type, bound=sizer_name[1:], docstring=comment)
+            elif size and "THIS_IS_VARIABLE_SIZE_ARRAY" in size:
+                sizer_name = "numOf" + xml_elem_name[0].upper() + xml_elem_name[1:]
+                yield model.StructMember(xml_elem_name, xml_elem_type, bound=sizer_name, docstring=comment)
+            elif "isVariableSize" in dimension.attrib:
+                type_ = dimension.get("variableSizeFieldType", "u32")
+                sizer_name = dimension.get("variableSizeFieldName", xml_elem_name + "_len")
+                yield model.StructMember(sizer_name, type_, docstring=comment)
+                size_ = None if dynamic_array else size
+                yield model.StructMember(xml_elem_name, xml_elem_type, bound=sizer_name, size=size_, docstring=comment)
+            else:
+                yield model.StructMember(xml_elem_name, xml_elem_type, size=size, docstring=comment)
+    return list(collect())
+"""
+
+
+def _isar_pieces(collect_node, globals_):
+    """The pieces of make_struct_members.collect the rules speak about, as rename-insensitive normal-form texts."""
+    from .. import templ
+
+    def c(node_or_list):
+        nodes = node_or_list if isinstance(node_or_list, list) else [node_or_list]
+        return ' ; '.join(P._canon(n, globals_) for n in nodes)
+    top = [n for n in collect_node.body if isinstance(n, ast.If)]
+    if len(top) != 1:
+        raise AnalysisError('make_struct_members.collect: top-level dimension test not found')
+    out = {'no-dimension': c(top[0].test) + ' -> ' + c(top[0].body)}
+    else_body = top[0].orelse
+    ladder = [n for n in else_body if isinstance(n, ast.If) and len(templ.if_chain(n)) >= 4]
+    if len(ladder) != 1:
+        raise AnalysisError('make_struct_members.collect: dimension form ladder not found')
+    idx = else_body.index(ladder[0])
+    # everything in front of the ladder runs for every dimension form: size (and size2), the optional enabler, the sizer name
+    out['before-forms'] = c(else_body[:idx])
+    rows = templ.if_chain(ladder[0])
+    for i, r in enumerate(rows):
+        out['dimension-form %d' % i] = (c(r.guards[-1][0]) if r.guards[-1][1] else 'else') + ' -> ' + c(list(r.body))
+    out['after-forms'] = c(else_body[idx + 1:])
+    return out, rows
 
 
 def isar_forms(ctx, L):
-    """make_struct_members maps the <dimension> forms to member forms; the optional enabler precedes every dimensioned member."""
-    f = ctx.py.mod('prophyc.parsers.isar').func('make_struct_members')
-    c = ctx.py.mod('prophyc.parsers.isar').func('make_struct_members.collect')
-    s = ws(unparse(c.node))
-    L.check(inn('if dimension is None: yield model.StructMember(xml_elem_name, xml_elem_type, optional=optional, docstring=comment)', s),
-            'C17a.isar-forms', 'no-dimension', c.site(), 'a member without <dimension> is plain or optional', '')
-    # the has_ enabler for optional+dimension is emitted for *every* dimension form: it must not sit inside a form branch
-    top_else = [n for n in c.node.body if isinstance(n, ast.If)]
-    if len(top_else) != 1:
-        raise AnalysisError('make_struct_members.collect: top-level dimension test not found')
-    else_body = top_else[0].orelse
-    enabler = [n for n in else_body if isinstance(n, ast.If) and ws(unparse(n.test)) == 'optional']
-    ok = len(enabler) == 1 and ws(unparse(enabler[0].body)).startswith("yield model.StructMember('has_' + xml_elem_name, 'u32'")
-    L.check(ok, 'C17a.isar-forms', 'optional-enabler', c.site(),
-            'an optional member with a <dimension> is described by an explicit u32 `has_<name>` enabler followed by the array - for every '
-            'dimension form (fixed, size*size2, ext-sized, variable), not only for some of them', s[:400])
-    if ok:
-        idx = else_body.index(enabler[0])
-        later = [n for n in else_body[idx + 1:] if isinstance(n, ast.If) and 'sizer_name' in unparse(n.test)]
-        L.check(bool(later), 'C17a.isar-forms', 'optional-enabler|before-forms', c.site(), 'the enabler is emitted before the form ladder', '')
-    ladder = [n for n in else_body if isinstance(n, ast.If) and 'sizer_name' in unparse(n.test)]
-    if len(ladder) != 1:
-        raise AnalysisError('make_struct_members.collect: dimension form ladder not found')
-    from .. import templ
-    rows = templ.if_chain(ladder[0])
-    got = [(ws(unparse(r.guards[-1][0])) if r.guards[-1][1] else 'else', ' '.join(ws(unparse(x)) for x in r.body)) for r in rows]
-    want = [
-        ("sizer_name and '@' in sizer_name[0]", 'yield model.StructMember(xml_elem_name, xml_elem_type, bound=sizer_name[1:], docstring=comment)'),
-        ("size and 'THIS_IS_VARIABLE_SIZE_ARRAY' in size", "sizer_name = 'numOf' + xml_elem_name[0].upper() + xml_elem_name[1:] "
-         'yield model.StructMember(xml_elem_name, xml_elem_type, bound=sizer_name, docstring=comment)'),
-        ("'isVariableSize' in dimension.attrib", "type_ = dimension.get('variableSizeFieldType', 'u32') "
-         "sizer_name = dimension.get('variableSizeFieldName', xml_elem_name + '_len') yield model.StructMember(sizer_name, type_, docstring=comment) "
-         'size_ = None if dynamic_array else size yield model.StructMember(xml_elem_name, xml_elem_type, bound=sizer_name, size=size_, docstring=comment)'),
-        ('else', 'yield model.StructMember(xml_elem_name, xml_elem_type, size=size, docstring=comment)'),
-    ]
-    for i, (w, g) in enumerate(zip(want, got + [('', '')] * 4)):
-        L.check(w == g, 'C17a.isar-forms', 'dimension-form %d' % i, c.site(rows[i].node if i < len(rows) else None),
-                'dimension form %d must be `%s` -> %s' % (i, w[0], w[1]), '%s -> %s' % g)
-    L.check(inn("if size2: size = '{}*{}'.format(size, size2)", s), 'C17a.isar-forms', 'size2', c.site(), 'two-dimensional sizes multiply', '')
+    """make_struct_members maps the <dimension> forms to member forms; the optional enabler precedes every dimensioned member.
+    The function is compared piece by piece with the reviewed text, both in normal form (so hoisting / inlining of the locals,
+    renaming, if-shapes do not matter; a changed guard, emitted member or order does)."""
+    mod = ctx.py.mod('prophyc.parsers.isar')
+    c = mod.func('make_struct_members.collect')
+    G_ = P.module_globals(mod) | P.ALL_GLOBALS
+    want_f = P._FakeFunc(ISAR_MEMBERS, ['xml_elem', 'dynamic_array=False'], mod)
+    want_c = [n for n in want_f.node.body if isinstance(n, ast.FunctionDef) and n.name == 'collect']
+    if len(want_c) != 1:
+        raise AnalysisError('isar_forms: expected text has no collect()')
+    want, _ = _isar_pieces(want_c[0], G_)
+    got, rows = _isar_pieces(c.node, G_)
+    why = {'no-dimension': 'a member without <dimension> is plain or optional',
+           'before-forms': 'size (times size2), then - for an optional member - the explicit u32 `has_<name>` enabler, then the sizer name are '
+                           'established for *every* dimension form (fixed, size*size2, ext-sized, variable), in front of the form ladder',
+           'after-forms': 'nothing is emitted after the form ladder'}
+    for k in sorted(want):
+        i = int(k.split()[-1]) if k.startswith('dimension-form') else None
+        L.check(got.get(k) == want[k], 'C17a.isar-forms', k if i is None else 'dimension form %d' % i,
+                c.site(rows[i].node if i is not None and i < len(rows) else None),
+                why.get(k) or 'dimension form %d must be `%s`' % (i, want[k]), got.get(k, ''))
+    L.check(set(got) == set(want), 'C17a.isar-forms', 'form-count', c.site(), 'exactly four dimension forms', str(sorted(got)))
     ms = ctx.py.mod('prophyc.parsers.isar').func('make_struct')
     L.check('for member in xml_elem: for sub_ in make_struct_members(member, last_member_array_is_dynamic): members.append(sub_)' in ws(unparse(ms.node)),
             'C17f.member-order', 'make_struct', ms.site(), 'members keep their document order', '')
@@ -147,8 +209,15 @@ def ordering(ctx, L):
             'C17d.patch-before-evaluate', 'ModelParser.__call__', mp.site(), 'patched members must be (re-)evaluated: parse, patch, evaluate', str(body))
     p = ctx.py.mod('prophyc.patch')
     f = p.func('patch')
-    L.check('patches = patch_dict.get(node.name) if patches: nodes[idx] = _apply(node, patches)' in ws(unparse(f.node)), 'C17e.patch-semantics',
-            'patch|unknown-message-ignored', f.site(), 'rules naming an absent message are ignored; others are applied in place', ws(unparse(f.node)))
+    L.check(P.body_is(f, """
+        for idx, node in enumerate(nodes):
+            patches = patch_dict.get(node.name)
+            if patches:
+                nodes[idx] = _apply(node, patches)
+        """), 'C17e.patch-semantics',
+            'patch|unknown-message-ignored', f.site(), 'rules are applied to exactly the top-level definitions of the file being parsed, each '
+            'looked up by name (rules naming an absent message are ignored, the others are applied in place, once): an included file has '
+            'been patched by its own parse and its node list is shared through the file cache', ws(unparse(f.node)))
     a = p.func('_apply')
     L.check("action = _actions.get(patch_.action) if not action: raise Exception('Unknown action: %s %s' % (node.name, patch_))" in ws(unparse(a.node)),
             'C17e.patch-semantics', '_apply|unknown-verb', a.site(), 'an unknown verb fails the compilation', '')
@@ -186,10 +255,13 @@ def patch_actions(ctx, L):
             L.check(piece in s, 'C17e.patch-precondition', '%s|%s' % (q, piece[:24]), f.site(), why, '')
     lim = p.func('_limited')
     s = ws(unparse(lim.node))
-    L.check(re.search(r'if not mem\.size: raise Exception\(', s) is not None, 'C17e.patch-precondition', '_limited|requires-size', lim.site(),
+    L.check(any(isinstance(r, ast.Raise) and P.knows(lim, r, 'node.members[i].size', False) for r in lim.walk()),
+            'C17e.patch-precondition', '_limited|requires-size', lim.site(),
             '`limited` "needs to be a fixed array to begin with" (docs/other_schemas.rst): a member without a size must be refused, '
             'otherwise bound without size silently makes a dynamic array', s[-300:])
-    L.check(inn("sizer_found = len(tuple((x for x in node.members[:i] if x.name == len_array)))", s) and inn("if not sizer_found: raise Exception(", s),
+    L.check(any(isinstance(r, ast.Raise) and (P.knows(lim, r, 'len(tuple(x for x in node.members[:i] if x.name == len_array))', False) or
+                                              P.knows(lim, r, 'sizer_found', False) and P.has(lim, "sizer_found = len(tuple((x for x in node.members[:i] if x.name == len_array)))"))
+                for r in lim.walk()),
             'C17e.patch-precondition', '_limited|sizer-before', lim.site(), 'the sizer must exist before the array', '')
     st = p.func('_struct')
     s = ws(unparse(st.node))
